@@ -74,7 +74,7 @@ func runC04(c *Ctx) {
 	c.checkComplementShape("complement-shape")
 	c.checkStaleState("stale-iteration-state", "cmd", "align")
 	c.L.Floor("stale-iteration-state", 3, "listed state machines of cmd and align plus the scope line")
-	c.checkSumGuards("sum-guard-overflow", "SubAlign", "InverseCoordinates", "Mask")
+	c.checkSumGuards("sum-guard-overflow", "SubAlign", "InverseCoordinates", "Mask", "RefCoordinates")
 	c.L.Floor("sum-guard-overflow", 1, "SubAlign and InverseCoordinates (floor = half)")
 	c.checkArgNameOrder("arg-name-order", "align", "cmd")
 }
